@@ -9,3 +9,7 @@ Definition g_oset_id (o : oslice) (i w : Z) : R oslice :=
 (* o[i].OutputFrequency = v *)
 Definition g_oset_freq (o : oslice) (i v : Z) : R oslice :=
   g_oupd o i (fun s => let '(t, c, p, _) := s in (t, c, p, v)).
+(* o[i].F = v for the k-th field of a four-field setting *)
+Definition g_oset_at (o : oslice) (i : Z) (k : Z) (v : Z) : R oslice :=
+  g_oupd o i (fun s => let '(a, b, c, d) := s in
+                       if k =? 0 then (v, b, c, d) else if k =? 1 then (a, v, c, d) else if k =? 2 then (a, b, v, d) else (a, b, c, v)).
